@@ -7,6 +7,8 @@ from symx.proto import (Entropy, setup_hash_axioms, outcome, okind, orders, new_
                         SIDE_BYTE)
 
 PID = "C09"
+TECHNIQUE = 'symbolic execution of all 9 (saving role, restoring role) pairs under parameter sets differing in exactly one component; z3 with no-collision/injectivity axioms decides rejection or equivalence'
+LEVEL_NOTE = 'different groups modelled as different widths or same field/other generator; known finding F7 (generator not fingerprinted)'
 EXPLANATION = (
     "State saved by each real class K1 under an abstract parameter set P1 is offered to the real from_serialized() of "
     "each class K2 (all 9 ordered pairs) under a parameter set P2 that is the same, or differs in exactly one of "
